@@ -14,7 +14,7 @@ case "$1" in
   git -C $S diff > $dir/$name.patch
   [ -s $dir/$name.patch ] || { echo "empty diff"; rm -f $dir/$name.patch; exit 2; }
   (cd $S && go build $(go list ./... 2>/dev/null | grep -v '/mocks\|pkg/test') && go vet $(go list ./... 2>/dev/null | grep -v '/mocks\|pkg/test\|repository/content$\|streamwriter') >/dev/null 2>&1) || { echo "DOES NOT BUILD (or test files do not compile)"; git -C $S checkout -q -- . ; exit 2; }
-  if [ -z "$NOTEST" ]; then /verif/tools/scratch.sh test || { echo "baseline tests kill this variant: dropped"; mv "$dir/$name.patch" /tmp/fsdb_dropped_variant.patch; git -C $S checkout -q -- . ; exit 2; }; fi
+  if [ -z "$NOTEST" ]; then /verif/tools/scratch.sh test || { echo "baseline tests kill this variant: kept as tk_$name (still a must-detect case for the checker)"; mv "$dir/$name.patch" "$dir/tk_$name.patch"; }; fi
   out=$(/verif/bin/fsdbcheck -repo $S -prop $prop -no-evidence); code=$?
   echo "$out" | grep -E 'OBLIGATION|^  |VIOLATION|UNDECIDED|KNOWN' | head -20
   echo "checker exit=$code (kind $kind)"
